@@ -29,7 +29,7 @@ Proof.
   - inversion H; subst. exists 0%nat. split; [lia|reflexivity].
   - rewrite blank_same in H. destruct (sblank c) eqn:E.
     + destruct (IH _ _ H) as (n & Hj & Hs). exists (S n). split; [lia|exact Hs].
-    + destruct (asserts && is_white c); [discriminate|]. inversion H; subst. exists 0%nat. split; [lia|reflexivity].
+    + rewrite andb_false_r in H. inversion H; subst. exists 0%nat. split; [lia|reflexivity].
 Qed.
 
 Lemma firstn_app_len {A} (w t : list A) : firstn (length w) (w ++ t) = w.
@@ -155,3 +155,12 @@ Proof.
   unfold sha1. destruct (fold_left compress _ sha1_init) as [[[[h0 h1] h2] h3] h4].
   unfold bytes_of_word at 1. cbn [app hex_encode]. discriminate.
 Qed.
+
+(* the assertion of _dbus_string_skip_blank cannot fail (after fix 94435c1) *)
+Lemma skip_blank_from_total asserts s : forall i, skip_blank_from asserts s i <> None.
+Proof.
+  induction s as [|c r IH]; intros i; cbn [skip_blank_from]; [discriminate|].
+  destruct (is_blank c) eqn:E; [apply IH|]. rewrite andb_false_r. discriminate.
+Qed.
+Theorem skip_blank_total asserts s start : skip_blank asserts s start <> None.
+Proof. unfold skip_blank. apply skip_blank_from_total. Qed.
